@@ -83,6 +83,18 @@ class Report(object):
             return self.ok(rule, construct, where, fact, config)
         return self.violation(rule, construct, where, fact, expected, config, key)
 
+    def unlisted_violations(self):
+        """Violations that are not open known findings (does not change any verdict)."""
+        open_known = [k for k in load_known() if k.get('property') == self.prop and k.get('status') == 'open']
+        out = []
+        for v in self.instances:
+            if v['verdict'] != 'violation':
+                continue
+            if not any(k.get('rule') == v['rule'] and k.get('construct') == v['construct'] and
+                       (not k.get('key') or k.get('key') == v['key']) for k in open_known):
+                out.append(v)
+        return out
+
     # -- finishing
     def finish(self, write_evidence=True):
         from .srcmodel import AnalysisError
